@@ -42,6 +42,8 @@ def suites():
         # ... through from_tracks (ids kept) / with recomputed ids
         "x_structzf": (variant("struct3zf", "x_structzf"), 60, 600),
         "x_structzc": (variant("struct3zc", "x_structzc"), 60, 600),
+        # attribute names chosen by the caller
+        "x_structk": (variant("struct3k", "x_structk"), 60, 600),
         "x_seg13": (variant("seg13", "x_seg13"), 90, 1500),
         # abstract columns 0,1,2 at real columns 0,63,64 of a 70-wide array: straddles the exporter's 64-voxel chunks
         "x_seg13e": (variant("seg13", "x_seg13e", embed=[70, [0, 63, 64]]), 90, 1500),
@@ -61,9 +63,9 @@ def suites():
     }
 
 
-PLAN = {"C14": ["x_struct4", "x_struct0", "x_structc", "x_peraxis", "x_seg13", "x_seg13n", "x_seg3d", "x_featns", "x_feat13"],
+PLAN = {"C14": ["x_struct4", "x_struct0", "x_structc", "x_peraxis", "x_structk", "x_seg13", "x_seg13n", "x_seg3d", "x_featns", "x_feat13"],
         "C15": ["x_struct4", "x_struct0", "x_seg13e", "x_seg13f", "x_seg3d", "x_seg13b"],
-        "C16": ["x_struct4", "x_struct0", "x_peraxis", "x_structz", "x_structzf", "x_structzc", "x_seg13e", "x_seg13f", "x_seg13n", "x_seg3d"]}
+        "C16": ["x_struct4", "x_struct0", "x_peraxis", "x_structk", "x_structz", "x_structzf", "x_structzc", "x_seg13e", "x_seg13f", "x_seg13n", "x_seg3d"]}
 
 RULE = {"C14": "one record per (catalogue state, format in csv/geff/internal); non-trivial = state with at least one edge",
         "C15": "one record per (catalogue state, EVERY subset of its nodes, format in csv/geff); non-trivial = selection whose ancestor closure adds nodes",
